@@ -28,6 +28,9 @@ type crashCase struct {
 	// FailedCreate: before the bucket is reopened, OpenBucket(CreateNew) is tried on it: it must be
 	// refused (the bucket exists) and, being a failed call, leave everything as it was
 	FailedCreate bool `json:"failedCreate,omitempty"`
+	// Rename: the bucket is reopened under another bucket name (the name is the caller's label for
+	// the open bucket; what is stored at the URL, UUID included, is the same bucket)
+	Rename bool `json:"rename,omitempty"`
 }
 
 // crashProfile: histories for the child (documents, xattrs, deletes, design docs, views, purge,
@@ -106,6 +109,9 @@ func afterCrash(cc *crashCase, dir, name string, res *ChildResult) (devs []Devia
 			bad("crash.createnew", "OpenBucket(CreateNew) on the existing bucket succeeded")
 			b.Close(ctx)
 		}
+	}
+	if cc.Rename {
+		name += "r"
 	}
 	w, err := NewWorldAt(cfg, dir, name, true)
 	if err != nil {
@@ -502,7 +508,7 @@ func TestC10(t *testing.T) {
 		}
 		sort.Ints(idx)
 		for _, i := range idx {
-			cc := &crashCase{Config: cfg, Steps: rp.Steps, Crash: points[i], After: after, FailedCreate: (i+len(rp.Steps))%3 == 0}
+			cc := &crashCase{Config: cfg, Steps: rp.Steps, Crash: points[i], After: after, FailedCreate: (i+len(rp.Steps))%3 == 0, Rename: (i+len(rp.Steps))%4 == 1}
 			devs, res, applied, err := runCrashCase(cc)
 			if err != nil {
 				rt.Fatalf("INFRA: %v", err)
